@@ -26,6 +26,7 @@ SLOT_WRITERS = {'cocls::future_common::future_common', 'cocls::future_common::su
 
 def run(ctx, db, tier):
     subscribe_protocol(ctx, db)
+    registration_one_step(ctx, db)
     link_current(ctx, db)
     await_suspend_siblings(ctx, db)
     resolve_one_rmw(ctx, db)
@@ -111,6 +112,54 @@ def subscribe_protocol(ctx, db, rid='C02.subscribe-protocol'):
                desc='failed CAS not compared with the ready marker', trace=fmt_trace(bad_cmp or bad_false) if (bad_cmp or bad_false) else None)
         ctx.ob(rid, f, f['key'], bad_reset is None, 'a refused awaiter is left with _next == nullptr (otherwise its next subscription would swap the ready marker out)',
                desc='refused awaiter keeps the ready marker in _next', trace=fmt_trace(bad_reset) if bad_reset else None)
+
+
+def registration_one_step(ctx, db, rid='C02.registration-one-step'):
+    """the slot of a future can hold the ready marker, so "is it resolved?" and "push me" must be one atomic step on the slot: the only
+    primitive that does both is subscribe_check_ready(slot, marker).  A separate test followed by the unconditional push lets a resolution
+    land in between: the waiter is pushed on top of the marker (nobody will resume it) and the marker is gone (the future is pending again)"""
+    rid = ctx.rule(rid, 'WHO+PATHS', 'an awaiter is registered on a future\'s slot only by awaiter::subscribe_check_ready(slot, awaiter::disabled): the unconditional push '
+                   'awaiter::subscribe is never applied to a future\'s slot; on every path of future_common::subscribe exactly one operation reaches the slot (no separate '
+                   'ready test before the push) and what the function answers is the answer of that operation', floor=2)
+    MARK = 'cocls::awaiter::disabled'
+    seen = set(); n = 0
+    for f in db.all_instances():
+        for e in f.events():
+            if e.k != 'call' or norm(e.get('callee') or '') not in ('cocls::awaiter::subscribe', 'cocls::awaiter::subscribe_check_ready'):
+                continue
+            a = e.get('args') or []
+            if not a or norm(a[0].get('field') or '') != SLOT or (f['key'], e.get('loc')) in seen:
+                continue
+            seen.add((f['key'], e.get('loc'))); n += 1
+            if norm(e['callee']) == 'cocls::awaiter::subscribe':
+                ctx.ob(rid, f, e['loc'], False, 'the slot of a future is pushed to by subscribe_check_ready only',
+                       desc='unconditional awaiter::subscribe on a future\'s slot: a resolution between the caller\'s ready test and this push is overwritten (the waiter sits on top of the ready marker and is never resumed)')
+            else:
+                ok = len(a) >= 2 and (norm(a[1].get('field') or '') == MARK or (a[1].get('path') or '').endswith(MARK))
+                ctx.ob(rid, f, e['loc'], ok, 'subscribe_check_ready on a future\'s slot refuses on the ready marker awaiter::disabled',
+                       desc='registration on a future\'s slot does not test for the ready marker')
+    for f, trs in traces_of(db, 'cocls::future_common::subscribe', per_instance=False):
+        trs = [t for t in trs if live(t)]
+        ctx.paths(rid, len(trs))
+        bad = None
+        for tr in trs:
+            ops = [it for it in tr if it.k == 'call' and not it.get('expanded') and (
+                (atomic.is_atomic_call(it) and norm(it.get('field') or '') == SLOT) or
+                norm(it.get('callee') or '') in ('cocls::awaiter::subscribe', 'cocls::awaiter::subscribe_check_ready') or
+                any(norm(a_.get('field') or '') == SLOT for a_ in it.get('args') or []))]
+            reg = [it for it in ops if norm(it.get('callee') or '') == 'cocls::awaiter::subscribe_check_ready']
+            if len(ops) != 1 or len(reg) != 1:
+                bad = bad or ('%d operations reach the slot on one path (%s): the ready test and the push are not one atomic step' % (
+                    len(ops), ', '.join((atomic.opname(o) if atomic.is_atomic_call(o) else norm(o.get('callee') or '?').split('::')[-1]) for o in ops) or 'none'), tr)
+                continue
+            o = origin_in_trace(tr, len(tr), ret_expr(tr))[0] or ''
+            rb = ret_bool(tr)
+            if not o.endswith('::subscribe_check_ready)') and not (rb is not None and any(tests(b, reg[0]) and bool(b.val) == rb for b in tr if b.k == 'branch')):
+                bad = bad or ('the function does not answer what the registration answered (%s)' % (ret_expr(tr) or ret_const(tr)), tr)
+        ctx.ob(rid, f, f['key'], bad is None and bool(trs), 'future_common::subscribe = one subscribe_check_ready on the slot, whose answer is returned' + ('' if not bad else ' -- ' + bad[0]),
+               desc=bad[0] if bad else None, trace=fmt_trace(bad[1]) if bad else None)
+    if n == 0:
+        raise Broken('no registration on a future\'s slot found (future_common::_awaiter handed to subscribe_check_ready)')
 
 
 def link_current(ctx, db, rid='C02.link-is-current-top'):
@@ -315,19 +364,36 @@ def _keys(db, name):
 
 def walk(ctx, db, rid='C02.walk'):
     rid = ctx.rule(rid, 'ORDER+NO-TOUCH', 'chain walkers (awaiter::resume_chain_lk, mutex::unlock): nothing reachable from a node (or an alias of it) is read or written after '
-                   'the node has been resumed / handed over - its owner may already be gone', floor=2)
+                   'the node has been resumed / handed over - its owner may already be gone; the link of a node is read (into the cursor) before it is overwritten: '
+                   'no path reads the _next of a node whose _next it has already cleared (the walk would end after that node and the rest of the chain is never resumed)', floor=2)
     for name, is_resume in (('cocls::awaiter::resume_chain_lk', lambda ev: ev.k == 'call' and norm(ev.get('callee')) == 'cocls::awaiter::resume'),
                             ('cocls::mutex::unlock', lambda ev: ev.k == 'call' and (ev.get('recv') == 'param:fn' or (ev.get('callee_expr') or '').startswith('param:fn') or norm(ev.get('callee')) == 'cocls::awaiter::resume'))):
         for f, trs in traces_of(db, name, depth=0, per_instance=False, maxvisit=3):
             ctx.paths(rid, len(trs))
-            bad = None; nres = 0
+            bad = None; nres = 0; lost = None
             for tr in trs:
                 alias = {}          # var -> set of aliases (including itself)
                 dead = set()
+                cleared = set()     # names of the node(s) whose link this path has overwritten with something that is not a link
                 inside = None       # id of the resume call whose own (inlined) body is being walked
                 for i, it in enumerate(tr):
                     if it.k == 'abort':
                         break
+                    if inside is None:
+                        # the link is read before it is cleared: a read of <node>->_next through any name of a node whose link was overwritten
+                        # on this path yields the overwriting value (null), not the successor
+                        m_ = re.fullmatch(r'((?:local|param):\w+(?:#\d+)?|this)->_next', (it.get('path') or '') if it.k in ('read', 'write') else '')
+                        if m_ and it.k == 'write':
+                            if it.get('const') == 0 or (it.get('rhs') or '') in ('nullptr', '0'):
+                                cleared |= set(alias.get(m_.group(1), {m_.group(1)}))
+                            else:
+                                cleared -= set(alias.get(m_.group(1), {m_.group(1)}))
+                        elif m_ and m_.group(1) in cleared:
+                            lost = lost or ('the link %s is read after this path has cleared it: the cursor becomes null, the walk ends after the first node and the awaiters behind it are never resumed' % it['path'], tr, i)
+                        if it.k == 'decl' and it.get('var'):
+                            cleared.discard(it['var'])
+                        elif it.k == 'write' and re.fullmatch(r'(?:local|param):\w+(?:#\d+)?', it.get('path') or ''):
+                            cleared.discard(it['path'])
                     if inside is not None:
                         if it.k == 'leave' and it.ev.get('id') == inside[0] and it.get('depth') == inside[1]:
                             inside = None
@@ -373,6 +439,8 @@ def walk(ctx, db, rid='C02.walk'):
                 raise Broken('no resume/hand-over event found in %s: anchor changed' % name)
             ctx.ob(rid, f, f['key'], bad is None, 'no access to a node after it was resumed' + ('' if not bad else ' -- ' + bad[0]), desc=(bad[0] if bad else None),
                    trace=short_trace(bad[1], bad[2]) if bad else None)
+            ctx.ob(rid, f, f['key'], lost is None, 'the link of a node is read before it is cleared' + ('' if not lost else ' -- ' + lost[0]), desc=(lost[0] if lost else None),
+                   trace=short_trace(lost[1], lost[2]) if lost else None)
 
 
 def result_used(ctx, db, rid, family, floor=8, only=None):
